@@ -409,6 +409,32 @@ class Bus:
             self.note("info", c.name)
             S.request(c, "info", chunks=pick_chunks(rng))
 
+    def op_readfault(self):
+        """a read() on one connection is interrupted (EINTR) or fails for a moment (ENOBUFS / ENOMEM) while a complete request is
+        waiting in its queue: the daemon may give that connection up or try again - but the request is not left lying around on an
+        open connection (the descriptor is edge triggered: nothing will announce those bytes a second time)"""
+        import errno as E
+        S, rng = self.S, self.rng
+        al = [c for c in self.alive() if c.healthy and not c.pending]
+        if not al:
+            return
+        c = rng.choice(al)
+        self.settle()
+        e = rng.choice([E.EINTR, E.EINTR, E.ENOBUFS, E.ENOMEM])
+        S.sim.inject("read", 1, e)
+        c.may_close = True
+        self.note("read-fault", c.name, E.errorcode[e])
+        S.sig("read-fault", E.errorcode[e], c.transport)
+        S.stats["read_faults"] += 1
+        S.request(c, "info")
+        self.settle()
+        S.sim.inject("read", 0, 0)
+        if c.closed:
+            S.stats["read_fault_closed_connection"] += 1
+            return
+        S.request(c, "info")
+        self.settle()
+
     DEFAULT_WEIGHTS = dict(add=14, remove=6, change=12, fetch=8, unfetch=4, get=4, route=12, reply=12, advance=3,
                            connect=2, disconnect=3, misc=2)
 
